@@ -1,7 +1,7 @@
 (* F11 / F11b: the pinned code ([fx = false]: before fix: 5295e98 and fix: a6f4ffc) panics where the
    property demands an error; the same inputs are errors of the current code ([fx = true]). *)
 From Coq Require Import List NArith.
-From DesVerif Require Import Ndl.Bytes Ndl.Grammar Ndl.Def Ndl.Transform Ndl.Build Ndl.Model.
+From DesVerif Require Import Ndl.Bytes Ndl.Grammar Ndl.Def Ndl.Transform Ndl.Build Ndl.Denote Ndl.Realisable Ndl.Known Ndl.Model.
 Import ListNotations.
 Open Scope N_scope.
 
@@ -79,3 +79,32 @@ Lemma C18_pinned_duplicate_cluster_fields :
   exists d, (exists n, transform false d = Ok n /\ Build.build (fun _ => true) n = Panic Build.P_MODULE_EXISTS) /\
             transform true d = Err K_SYMBOL_ALREADY_DEFINED.
 Proof. exists d_dup_clusters. split; [eexists; split|]; vm_compute; reflexivity. Qed.
+
+(* F11c (known finding, current code): `transform succeeds and the wiring is realisable => the build succeeds` is false.
+   Z { h: G(C) };  G(T <- I): inherit Q { x: T };  Q { gates [g]; y: T; y/z <-> g };  I { gates [p] };  C: inherit I;
+   T { gates [z] }   -- Q's `y: T` is the GLOBAL module T.  Instantiating G(C) replaces every submodule whose symbol is
+   "T", the inherited y included; the inherited connection y/z then names a gate that C does not have: the elaborated
+   tree has an endpoint that does not resolve ([tree_ok] = false) although no statement connects a gate to itself or
+   a third time, and the build hits access_gate(..).expect("gate"). *)
+Definition Cc := nm 67. Definition Q := nm 81. Definition Zz := nm 90.
+Definition gate1 (c : N) : FieldDef := {| fd_ident := nm c; fd_kard := Atom |}.
+Definition d_f11c : Def :=
+  {| d_entry := Zz;
+     d_modules :=
+       [plain Zz [(fld 104, tc G [Cc])];
+        ({| tc_ident := G; tc_args := [{| g_binding := T; g_bound := I |}] |},
+         {| md_inherit := Some Q; md_gates := []; md_subs := [(fld 120, tc T [])]; md_conns := [] |});
+        ({| tc_ident := Q; tc_args := [] |},
+         {| md_inherit := None; md_gates := [gate1 103]; md_subs := [(fld 121, tc T [])];
+            md_conns := [{| cd_lhs := [gate1 121; gate1 122]; cd_rhs := [gate1 103]; cd_link := None |}] |});
+        ({| tc_ident := I; tc_args := [] |}, {| md_inherit := None; md_gates := [gate1 112]; md_subs := []; md_conns := [] |});
+        ({| tc_ident := Cc; tc_args := [] |}, {| md_inherit := Some I; md_gates := []; md_subs := []; md_conns := [] |});
+        ({| tc_ident := T; tc_args := [] |}, {| md_inherit := None; md_gates := [gate1 122]; md_subs := []; md_conns := [] |})];
+     d_links := [] |}.
+Lemma C18_known_class_witness : KnownClass d_f11c /\ f11c_shape d_f11c = true.
+Proof. split; [eexists; split; vm_compute; reflexivity|vm_compute; reflexivity]. Qed.
+
+Lemma C18_build_fails_although_wiring_realisable :
+  exists d n, transform true d = Ok n /\ wiring_ok (den_conns n []) [] = true /\ tree_ok n = false /\
+              Build.build (fun _ => true) n = Panic Build.P_EXPECT_GATE.
+Proof. exists d_f11c. eexists. split; [vm_compute; reflexivity|]. repeat split; vm_compute; reflexivity. Qed.
